@@ -152,6 +152,7 @@ class Case:
         self.orig_ops, self.base = ops, base
         self.lines = [Line(o) for o in outs]
         self.users, self.sess = {}, {}
+        self._out = None
         self.maxsubs = 32
         for o in ops:
             w = o.split(" ")
@@ -205,6 +206,21 @@ class Case:
                     fw.append("@chn")
                 nf.append((sid, " ".join(fw)))
             ln.frames = nf
+
+    def logged_out(self, i):
+        """the sessions which the server has logged out before request i: a {sub} to `me` whose first store call - reading the
+        account - failed or found nothing logs the session out (initTopicMe); a restart stands for new connections"""
+        if self._out is None:
+            cur, self._out = set(), []
+            for o, ln in zip(self.ops, self.lines):
+                self._out.append(frozenset(cur))
+                w = o.split(" ")
+                if w[0] == "restart":
+                    cur = set()
+                elif w[0] == "mesub" and ln.plain is None and ln.calls == ["UserGet"] and \
+                        any(sid == w[1] and f.startswith(("ctrl 500 ", "ctrl 404 ")) for sid, f in ln.meframes):
+                    cur.add(w[1])
+        return self._out[i] if i < len(self._out) else frozenset()
 
     def actor(self, w):
         """(uid acting, session's own uid, level) of a request op line split into words, or None when the as= is refused"""
@@ -501,7 +517,14 @@ def mon_C03(case):
         faulted = i > 0 and case.ops[i - 1].split(" ")[0] in ("fail", "crash") or (i > 1 and case.ops[i - 2].startswith("fail"))
         if acks and not ok:
             out.append((i, f"C03 publish to {t} by {act[0] if act else '?'} accepted although {why}"))
-        if ok and not acks and not faulted:
+        if ok and w[1] in case.logged_out(i):
+            # the session has been logged out by the server: 401 is the answer to whatever it sends
+            errs = [f for sid, f in ln.frames if sid == w[1] and f.startswith("ctrl ")]
+            want = "ctrl 403 -" if " as=" in o else "ctrl 401 "         # (`as=` of a session which is not root any more: refused as such)
+            if acks or not errs or not errs[0].startswith(want):
+                out.append((i, f"C03 publish to {t} from {w[1]}, which is logged out, answered `{(acks + errs + ['silence'])[0]}` instead of 401"))
+            ok = False
+        elif ok and not acks and not faulted:
             errs = [f for sid, f in ln.frames if sid == w[1] and f.startswith("ctrl ")]
             out.append((i, f"C03 publish to {t} by an attached writer refused ({errs[0] if errs else 'no reply'}) with no store failure injected"))
         if not acks:
@@ -809,7 +832,9 @@ def mon_C09(case):
             if not valid or c is None:
                 if (infos or ln.pushes or state_of(ln) != state_of(pre)) and c is not None:
                     out.append((i, f"C09 invalid note `{what} {w[4]}` on {t} had an effect"))
-                if [f for sid, f in ln.frames if not f.startswith("ctrl 409")] and c is not None and not valid:
+                # (`ctrl 403 -` is dispatch refusing the `as=` of a session which is not root, or not logged in any more: every
+                # request kind gets it, before the note is looked at)
+                if [f for sid, f in ln.frames if not f.startswith("ctrl 409") and f != "ctrl 403 -"] and c is not None and not valid:
                     out.append((i, f"C09 invalid note `{what} {w[4]}` on {t} was answered or relayed"))
                 continue
             for sid, f in infos:
@@ -1114,18 +1139,18 @@ def _sub_modes(lns, topic, user, chan=False):
             continue
         row = l.store.get(topic)
         c = l.cache.get(topic)
-        r = None
+        # a loaded topic decides by what it holds in memory, a `me` topic loading its contacts by the stored row: either view
+        # entitles (that the two agree is C08's business)
+        rs = []
         if c is not None and user in c["users"]:
-            # the loaded topic decides by what it holds in memory (that memory and store agree is C08's business)
-            r = c["users"][user]
-        elif row is not None:
-            r = row["csubs" if chan else "subs"].get(user)
-        if r is None:
-            continue
-        known = True
-        if not r["deleted"]:
-            modes.append(eff(r["want"], r["given"]))
-            givens.append(r["given"])
+            rs.append(c["users"][user])
+        if row is not None and user in row["csubs" if chan else "subs"]:
+            rs.append(row["csubs" if chan else "subs"][user])
+        for r in rs:
+            known = True
+            if not r["deleted"]:
+                modes.append(eff(r["want"], r["given"]))
+                givens.append(r["given"])
     return modes, known, givens
 
 
@@ -1138,7 +1163,7 @@ def mon_C10_me(case):
     out = []
     bg = {s: v["bg"] for s, v in case.sess.items()}
     faulted = False
-    phantom = set()        # topics with a subscription left behind by a request which was refused (reported by C07/C08: [phantom-sub])
+    phantom = set()        # topics with a subscription left behind by a request which was refused (reported by C08: [partial-write:newgrp] and the like)
     for i, (o, ln) in enumerate(zip(case.ops, case.lines)):
         w = o.split(" ")
         if w[0] == "fg" and len(w) > 1:
